@@ -48,12 +48,12 @@ def followup(stage, lines, model, checked, release, tier, rng):
                 ctx, msg = b"payments/v1:", b"pay 10 to bob"
                 for ph in (None, "sha256"):
                     a = K.api_sign(s, sk, msg, ctx) if ph is None else K.api_prehash_sign(s, sk, msg, ctx, 0, ph)
-                    _st.setdefault("api", []).append(dict(set=s, ctx=ctx, msg=msg, ph=ph, pk=pk, req=a))
+                    _st.setdefault("api", []).append(dict(set=s, ctx=ctx, msg=msg, ph=ph, pk=pk, sk=sk, req=a))
                     L.append(a)
             else:
                 msg = b"pay 10 to bob"
                 a = K.api_sign(s, sk, msg)
-                _st.setdefault("api", []).append(dict(set=s, ctx=None, msg=msg, ph=None, pk=pk, req=a, dil=True))
+                _st.setdefault("api", []).append(dict(set=s, ctx=None, msg=msg, ph=None, pk=pk, sk=sk, req=a, dil=True))
                 L.append(a)
         return L
     if stage == 2:
@@ -114,7 +114,13 @@ def followup(stage, lines, model, checked, release, tier, rng):
                 w = bytearray(sb); w[pos // 8] ^= 1 << (pos % 8)
                 sigalts.append(w.hex())
             e["neg"] += [VS(sg if sg else "-") for sg in sigalts]
+            # the same through the Keypair entry points (first argument sk || pk): implementation only
+            def kp(line):
+                t = line.split(" "); t[0] = t[0].replace("::PublicKey::", "::Keypair::"); t[1] = e["sk"] + pk
+                return "@impl " + " ".join(t)
+            e["neg"] += [kp(v) for v in list(e["neg"])]
             L.extend(e["neg"]); L.append(e["pos"])
+            e["pos2"] = kp(e["pos"]); L.append(e["pos2"])
         return L
     return []
 
@@ -146,8 +152,9 @@ def violated_all(lines, model, checked, release):
                 for prof, ans in (("checked", checked), ("wrapping", release)):
                     if ans[idx[v]] != "ok false":
                         out.append((idx[v], "%s build: altered data was not rejected: %s -> %s" % (prof, v.split()[0], ans[idx[v]])))
-        if "pos" in e and e["pos"] in idx and checked[idx[e["pos"]]] != "ok true":
-            out.append((idx[e["pos"]], "the unaltered signature does not verify"))
+        for key in ("pos", "pos2"):
+            if key in e and e[key] in idx and checked[idx[e[key]]] != "ok true":
+                out.append((idx[e[key]], "the unaltered signature does not verify (%s)" % e[key].replace("@impl ", "").split()[0]))
     return out
 
 
